@@ -227,14 +227,20 @@ class Repo:
         e.update(extra or {})
         return e
 
-    def plz(self, args, threads=None, env=None, timeout=120):
+    def plz(self, args, threads=None, env=None, timeout=120, retry_timeout=True):
         """Runs plz; returns (rc, output, executed-labels-in-order, raw log lines of this invocation)."""
         off = os.path.getsize(self.log) if os.path.exists(self.log) else 0
         cmd = [vlib.build_plz(), "-p", "-v", "1"]
         if threads:
             cmd += ["-n", str(threads)]
         cmd += args
-        rc, outp, _ = vlib.run_plz(cmd, self.root, self.env(env), timeout)
+        rc, outp, dump = vlib.run_plz(cmd, self.root, self.env(env), timeout)
+        if dump and retry_timeout:
+            # an invocation that does not terminate is C05's subject, not this property's: keep the goroutine dump, say so,
+            # and try once more (a second timeout is reported as it is)
+            print("NOTE: a plz invocation timed out after %ss and was retried; goroutine dump: %s" % (timeout, dump), flush=True)
+            off = os.path.getsize(self.log) if os.path.exists(self.log) else 0
+            rc, outp, dump = vlib.run_plz(cmd, self.root, self.env(env), timeout)
         lines = []
         if os.path.exists(self.log):
             with open(self.log) as f:
